@@ -113,6 +113,10 @@ impl<'a> Parser<'a> {
     pub fn parse(mut self) -> Result<Program, ParseError<'a>> {
         let mut blocks = Vec::new();
         while self.current().is_some() {
+            // an `else` that no `if` claimed ends every block without being consumed
+            if self.current_matches(TokenType::Else) {
+                return Err(self.new_parse_error(ParseErrorCode::UnexpectedToken));
+            }
             if let Some(block) = Some(self.parse_block()?).filter(|b| !b.is_empty()) {
                 blocks.push(block);
             }
